@@ -70,7 +70,15 @@ def stats(raw):
     return d
 
 
+FINDING_RUNS = {
+    'static-priority-boost-requeue': [[1, 100, 'mix', 14, '-', '--pika:threads=3', '--pika:scheduler=static-priority', '--pika:ini=pika.thread_queue.high_priority_queues!=1'],
+                                      [2, 100, 'mix', 14, '-', '--pika:threads=3', '--pika:scheduler=static-priority', '--pika:ini=pika.thread_queue.high_priority_queues!=1']],
+    # SIGSEGV in create_thread: the directed run dies, which is the finding (alternative signature valid for this run only)
+    'shared-priority-hint-out-of-range': [([13, 100, 'mixoob', 10, 'p1:shared-priority:2', '--pika:threads=4', '--pika:scheduler=abp-priority-fifo'], "crash rc=-N")],
+}
+
 e2check.run(dict(
+    finding_runs=FINDING_RUNS,
     prop='C10', model='place', harness='e2/place.cpp', bin='e2_place', props=['C10'],
     runs=runs, extra_runs=extra_runs, nontrivial=nontrivial, stats=stats, par=3, timeout_s=900,
     rule='generated sender pipelines (schedule/then, transfer_just, continues_on chains over up to 3 schedulers, execute, bulk, '
